@@ -274,7 +274,9 @@ fn parse_precision(text: &str) -> Result<(Option<usize>, &str), FormatSpecError>
 impl FormatSpec {
     pub fn parse(text: &str) -> Result<Self, FormatSpecError> {
         // get_integer in CPython
-        let (conversion, text) = FormatConversion::parse(text);
+        // A conversion (`!r`) belongs to the replacement field, not to the format spec:
+        // `format(1, "!r")` is a ValueError in CPython.
+        let conversion = None;
         let (mut fill, mut align, text) = parse_fill_and_align(text);
         let (sign, text) = FormatSign::parse(text);
         let (alternate_form, text) = parse_alternate_form(text);
